@@ -322,3 +322,100 @@ func ErrFlowCheck(c *Ctx, scope []*ssa.Function, allow []ErrFlowAllow) {
 	}
 	c.Count("functions_in_scope", len(scope))
 }
+
+// ErrPathCheck is the path-sensitive half of the error discipline: in a
+// function that handles an error by returning (the error itself is returned
+// somewhere, or its failure branch returns an error), no return path that is
+// dominated by the call may report success unless the error was tested == nil
+// on that path, classified as benign (== sentinel / errors.Is), or is the value returned.
+func ErrPathCheck(c *Ctx, scope []*ssa.Function, allow []ErrFlowAllow) {
+	al := map[string]string{}
+	for _, a := range allow {
+		al[a.Func+"|"+a.Callee] = a.Reason
+	}
+	for _, fn := range scope {
+		idx := ErrorResultIndex(fn)
+		if idx < 0 {
+			continue
+		}
+		paths := ReturnPaths(fn, idx)
+		occ := map[string]int{}
+		for _, u := range ErrorUses(fn) {
+			name := CallName(u.Call)
+			occ[name]++
+			if !u.Propagates || !(u.Why == "returned" || strings.HasPrefix(u.Why, "failure branch")) {
+				continue
+			}
+			if _, ok := al[FuncName(fn)+"|"+name]; ok {
+				continue
+			}
+			ev := ErrorResult(u.Call)
+			ci := u.Call.(ssa.Instruction)
+			bad := false
+			for _, rp := range paths {
+				if DefinitelyNonNil(rp.Val, rp.Facts) {
+					continue
+				}
+				if !(ci.Block() == rp.At || ci.Block().Dominates(rp.At)) {
+					continue
+				}
+				if ci.Block() == rp.At && rp.Ret.Block() == rp.At && InstrIndex(ci) > InstrIndex(rp.Ret) {
+					continue
+				}
+				if SameValue(rp.Val, ev) || KnownNil(rp.Facts, ev) || benignFact(rp.Facts, ev) || DerivesFrom(rp.Val, func(v ssa.Value) bool { return v == ev }) {
+					continue
+				}
+				// the call is in a loop and the return is outside it: a later iteration's value shadows this one
+				if InLoop(ci.Block()) && !InLoop(rp.At) && loopCarried(ci, rp) {
+					continue
+				}
+				bad = true
+				c.Violation(fmt.Sprintf("errpath:%s:%s#%d", FuncName(fn), name, occ[name]), rp.Ret.Pos(),
+					"%s can return success (operand %s) on a path where %s ran and its error was neither tested == nil nor returned", FuncName(fn), Short(rp.Val.String()), name)
+			}
+			if !bad {
+				c.Site(u.Call.Pos(), "%s: every success return after %s is dominated by its err == nil", FuncName(fn), name)
+			}
+		}
+	}
+}
+
+// benignFact: the path established ev == <sentinel> or errors.Is(ev, X) == true.
+func benignFact(facts []Fact, ev ssa.Value) bool {
+	for _, f := range facts {
+		switch x := f.Cond.(type) {
+		case *ssa.BinOp:
+			if (x.Op == token.EQL && f.Val || x.Op == token.NEQ && !f.Val) && !IsNilConst(x.X) && !IsNilConst(x.Y) {
+				if SameValue(x.X, ev) || SameValue(x.Y, ev) {
+					return true
+				}
+			}
+		case *ssa.Call:
+			if f.Val && compareOnly[CallName(x)] {
+				for _, a := range x.Call.Args {
+					if SameValue(a, ev) {
+						return true
+					}
+				}
+			}
+		}
+	}
+	return false
+}
+
+// loopCarried: every edge leaving the loop that contains ci towards rp passes a test of ev.
+func loopCarried(ci ssa.Instruction, rp RetPath) bool {
+	// conservative: accept when some If inside the call's loop tests ev against nil
+	ev := ErrorResult(ci.(ssa.CallInstruction))
+	if ev == nil {
+		return false
+	}
+	for _, r := range *ev.Referrers() {
+		if bo, ok := r.(*ssa.BinOp); ok && (IsNilConst(bo.X) || IsNilConst(bo.Y)) {
+			if controlPropagates(bo, ev) {
+				return true
+			}
+		}
+	}
+	return false
+}
